@@ -38,6 +38,7 @@ def _worker(job):
         reached = set()
     names = dict((fid, nm) for fid, nm in I.frame_names.items())
     return (entry, label, dict(facts=I.rec.facts, notes=I.rec.notes, ret=ret, self_out=heap_out, err=err, reached=reached, edges=I.edges,
+                               syms=dict(I.sym_info),
                                diverges=(ret is None and err is None), frames=names, dt=time.time() - t0))
 
 
@@ -55,6 +56,7 @@ class Run:
         self.dt = d.get("dt", 0.0)
         self.reached = d["reached"]
         self.edges = d["edges"]
+        self.syms = d.get("syms", {})
 
     def taken_reachable(self, fid, start, removed=()):
         """blocks reachable from `start` along CFG edges that the abstract run actually took"""
